@@ -301,6 +301,8 @@ def run(ctx, res):
     append_advance(prog, res, slots)
     write_all(prog, res)
     loop_progress(prog, res, "file_write")
+    from ..filewrite import rule_file_write
+    res.guard(rule_file_write, prog, res)
     n = prefix_constants(prog, res)
     ternary_offset_values(prog, res)
     uri_strip(prog, res, slots)
@@ -310,7 +312,7 @@ def run(ctx, res):
     res.require_min("R-SET-ADOPTS", 1)
     res.require_min("CURSOR-SIM", 4)
     res.require_min("R-APPEND-ADVANCE", 1)
-    res.require_min("R-WRITEALL", 4)
+    res.require_min("R-WRITEALL", 6)
     res.require_min("LOOP-PROGRESS", 1)
     res.require_min("T-CONST", 4)
     res.require_min("R-URI-STRIP", 1)
